@@ -117,6 +117,26 @@ type zBoxVV struct {
 	Items []zItemV
 }
 
+// zNest encodes itself by calling the package-level (pooled) functions again: two pooled instances are in use at
+// the same moment without any concurrency.
+type zNest struct {
+	Inner any
+	How   int
+}
+
+func (n zNest) MarshalJSON() ([]byte, error) {
+	switch n.How % 3 {
+	case 0:
+		return oj.Marshal(n.Inner)
+	case 1:
+		return []byte(oj.JSON(n.Inner)), nil
+	default:
+		var b strings.Builder
+		err := oj.Write(&b, n.Inner)
+		return []byte(b.String()), err
+	}
+}
+
 // boom is a Simplifier that panics while it is being written when armed.
 type boom struct {
 	Armed bool
@@ -148,6 +168,7 @@ type op07 struct {
 	Faulty   bool // any injected fault configured
 	IsParse  bool
 	HasBoom  bool // the value contains an armed panicking Simplifier
+	BadOpt   bool // an argument of an unsupported type follows the other options (the call is rejected before it parses)
 }
 
 func (o *op07) String() string {
@@ -159,6 +180,9 @@ func (o *op07) String() string {
 			in = in[:60] + "…"
 		}
 		fmt.Fprintf(&b, " input=%q mode=%d conv=%d reuse=%v onlyOne=%v", in, o.Mode, o.Conv, o.Reuse, o.OnlyOne)
+		if o.BadOpt {
+			b.WriteString(" +unsupported option argument")
+		}
 	}
 	if o.Sched != nil {
 		fmt.Fprintf(&b, " sched={%s}", o.Sched)
@@ -214,6 +238,7 @@ var parseInputs = [][]byte{
 	[]byte(`"ab\`), []byte(`"\u12`), []byte(`tru`), []byte(`nul`), []byte(`-`), []byte(`1.`), []byte(`1e`), []byte(`[1 2]`), []byte(`{"a" 1}`), []byte(`]`),
 	[]byte(`{"k":"v"} [1] 2 "s"`), []byte(`1 2 3`), []byte(`{"x":1}{"y":2}`), []byte(``), []byte(`  `), []byte(`null`), []byte(`{"a":1}x`),
 	[]byte(`[1,2] [3] x`), []byte(`[[1],[2]] {"a":[3,4]} ]`), []byte(`[1,2] {"a":[3]} [`), []byte(`["a","b"] ["c"] {"tags":["d","e"]} tru`), []byte(`[7,8,9]`), []byte(`{"l":[1,[2,[3]]]}`),
+	[]byte("\xef\xbc\x91\xef\xbc\x92"), []byte("\xef\xbb[1,2]"), []byte("\xef\xbb\xbf[1,2]"),
 	[]byte(`{"dup":1,"dup":2}`), []byte(`[0.1,0.123456789012345678,9223372036854775807,-9223372036854775808,1e400]`),
 }
 
@@ -251,7 +276,12 @@ func drawValue07(t *rapid.T) (any, string) {
 		}
 		return it
 	}
-	switch sim.Weighted(t, "valkind", 5, 2, 2, 1, 1, 1, 1, 2, 2) {
+	switch sim.Weighted(t, "valkind", 5, 2, 2, 1, 1, 1, 1, 2, 2, 1) {
+	case 9: // a value that calls the pooled functions again while it is being written
+		how := sim.Intn(t, 3, "nesthow")
+		in := mk()
+		v := []any{"head", zNest{Inner: []any{in, "x"}, How: how}, &zNest{Inner: in, How: how + 1}, "tail"}
+		return v, fmt.Sprintf("[head, zNest(%d){[%+v x]}, &zNest(%d){%+v}, tail]", how, in, how+1, in)
 	case 7: // a struct whose members encode themselves through pointer receivers, in every addressability
 		it := mkItem()
 		switch sim.Intn(t, 4, "itemform") {
@@ -452,6 +482,12 @@ func drawOp07(t *rapid.T, faults bool, th *theme07) *op07 {
 			o.Faulty = true
 			if strings.HasPrefix(o.Fn, "Write") && sim.Bool(t, "iofault") {
 				o.FailCall = sim.Intn(t, 4, "failcall")
+				if sim.Intn(t, 3, "doublefault") == 2 {
+					// ... and user code panics later in the same call (a large value first, so that a flush happens before)
+					o.Value = []any{strings.Repeat("x", 1200), o.Value, &boom{Armed: true, V: 1}, 2}
+					o.ValDesc = "[x*1200, " + o.ValDesc + ", <panicking Simplifier>, 2]"
+					o.HasBoom = true
+				}
 			} else {
 				o.Value = []any{o.Value, &boom{Armed: true, V: 1}, 2}
 				o.ValDesc = "[" + o.ValDesc + ", <panicking Simplifier>, 2]"
@@ -489,6 +525,10 @@ func drawOp07(t *rapid.T, faults bool, th *theme07) *op07 {
 			o.Reuse = false
 			reader = false
 		}
+	}
+	if faults && sim.Intn(t, 12, "badopt") == 11 {
+		o.BadOpt = true
+		o.Faulty = true
 	}
 	if reader && !strings.HasPrefix(o.Subj, "pkg.") {
 		switch o.Fn {
@@ -592,6 +632,9 @@ func (o *op07) parseArgs(isGen bool, r *res07) (args []any, collect func() []any
 	}
 	if o.Conv >= 0 && !isGen {
 		args = append(args, convMethods[o.Conv])
+	}
+	if o.BadOpt {
+		args = append(args, struct{ notAnOption int }{5})
 	}
 	return
 }
@@ -842,7 +885,7 @@ func (o *op07) exec(w *world07) (r *res07) {
 		case "Marshal(v,wr)":
 			out, err := oj.Marshal(o.Value, w.ojW)
 			finishText(out, err, nil)
-			if err == nil {
+			if len(out) > 0 { // (also when it comes with an error: it is the caller's now)
 				r.Retained = []any{out}
 			}
 		default:
@@ -909,13 +952,13 @@ func (o *op07) exec(w *world07) (r *res07) {
 		case "Marshal":
 			out, err := oj.Marshal(o.Value)
 			finishText(out, err, nil)
-			if err == nil {
+			if len(out) > 0 { // (also when it comes with an error: it is the caller's now)
 				r.Retained = []any{out}
 			}
 		case "Marshal(opts)":
 			out, err := oj.Marshal(o.Value, &opt)
 			finishText(out, err, nil)
-			if err == nil {
+			if len(out) > 0 { // (also when it comes with an error: it is the caller's now)
 				r.Retained = []any{out}
 			}
 		case "Write":
@@ -927,7 +970,7 @@ func (o *op07) exec(w *world07) (r *res07) {
 		case "Marshal(int)":
 			out, err := oj.Marshal(o.Value, o.Limit%5)
 			finishText(out, err, nil)
-			if err == nil {
+			if len(out) > 0 { // (also when it comes with an error: it is the caller's now)
 				r.Retained = []any{out}
 			}
 		case "Write(int)":
@@ -1183,7 +1226,8 @@ func propC07(cx *sim.Ctx) {
 		if r.Writer != nil {
 			writers = append(writers, keptWriter{op: i, w: r.Writer, calls: len(r.Writer.Calls)})
 		}
-		if !r.Volatile && !r.Aborted && len(r.Retained) > 0 {
+		// (an aborted call is not judged for freshness, but what it did hand over before it failed is the caller's)
+		if !r.Volatile && len(r.Retained) > 0 {
 			retained = append(retained, kept{op: i, vals: r.Retained, snap: snapshot(r.Retained)})
 		}
 		if !r.Aborted && r.Buffer != nil {
